@@ -177,23 +177,37 @@ func HarnessC17Size(a1, a2, lo, hi int) {
 	r2 := core.VerifEncode([]byte("get"), k2)
 	w.Feed(c, append(append([]byte{}, r1...), r2...))
 	w.RunTasks()
-	out := w.Sent(c)
 	const tooLarge = "-ERR req msg length too large\r\n"
 	big1, big2 := len(r1) > limit, len(r2) > limit
 	verifrt.ObserveBool("big1", big1)
 	verifrt.ObserveBool("big2", big2)
+	// A refusal is this request's reply and keeps its place in the pipeline: while an earlier request is
+	// still at its backend nothing may overtake it. So the backends answer first (SET: +OK, GET: the key).
+	early := w.Sent(c)
+	if !big1 {
+		verifrt.Assert(len(early) == 0, "refusal_does_not_overtake_the_request_before_it")
+	}
+	for _, s := range w.SortedServers() {
+		_, reqs := core.VerifRedisParse(w.Sent(s))
+		for _, r := range reqs {
+			w.Feed(s, replyFor(r))
+		}
+	}
+	out := w.Sent(c)
 	verifrt.ObserveBytes("client", out)
-	want := 0
+	var want []byte
 	if big1 {
-		want++
+		want = append(want, tooLarge...)
+	} else {
+		want = append(want, "+OK\r\n"...)
 	}
 	if big2 {
-		want++
+		want = append(want, tooLarge...)
+	} else {
+		want = append(want, bulk(k2)...)
 	}
-	verifrt.Assert(len(out) == want*len(tooLarge), "one_too_large_error_per_oversized_request")
-	for i := 0; i < want; i++ {
-		verifrt.Assert(bytes.Equal(out[i*len(tooLarge):(i+1)*len(tooLarge)], []byte(tooLarge)), "too_large_error_bytes")
-	}
+	verifrt.Assert(len(out) == len(want), "one_reply_per_request_too_large_error_iff_oversized")
+	verifrt.Assert(verifBytesEq(out, want), "one_reply_per_request_too_large_error_iff_oversized")
 	var sets, gets int
 	for _, s := range w.Servers {
 		st, reqs := core.VerifRedisParse(w.Sent(s))
